@@ -306,10 +306,14 @@ impl<'ctx> NaivePriceRepository<'ctx> {
                     continue;
                 }
             }
-            for (j, Entry(source, rates)) in match self.records.get(&prev) {
+            // visit the neighbours in the commodity order, so that the chain picked among
+            // equally good ones (and thus the rate) doesn't depend on the hash order.
+            let mut neighbours: Vec<_> = match self.records.get(&prev) {
                 None => continue,
-                Some(x) => x,
-            } {
+                Some(x) => x.iter().collect(),
+            };
+            neighbours.sort_unstable_by_key(|(j, _)| j.as_str());
+            for (j, Entry(source, rates)) in neighbours {
                 let bound = rates.partition_point(|(record_date, _)| record_date <= &date);
                 log::debug!(
                     "found next commodity {} with date bound {}",
